@@ -13,8 +13,8 @@ out of scope):
 * `FermionOperator.is_normal_ordered`, `is_two_body_number_conserving`,
   `BosonOperator.is_normal_ordered`, `is_boson_preserving`;
 * `PolynomialTensor.__eq__` (polynomial_tensor.py);
-* `is_identity`, `hermitian_conjugated` / `is_hermitian` for QubitOperator and
-  QuadOperator (operator_utils.py).
+* `is_identity`, `hermitian_conjugated` / `is_hermitian` for QubitOperator, QuadOperator,
+  FermionOperator and BosonOperator (operator_utils.py; the last two normal order first: Model.C03).
 
 Absolute values of complex numbers are irrational; every comparison
 `abs(x) < t` is modelled *exactly* through squares (`|x|² < t²` with the sign of
@@ -24,6 +24,7 @@ compares on inputs whose decisions have a relative margin ≥ 1e-9).
 Import-free.
 -/
 import OFV.Model.Symbolic
+import OFV.Model.C03
 
 namespace OFV
 namespace Model
@@ -175,6 +176,22 @@ def hcQubit (a : Op) : Op := a.foldl (fun acc (t, c) => Dict.set acc t c.conj) [
 
 /-- `tuple(sorted(reversed(term), key=index))`, coefficient conjugated -/
 def hcQuad (a : Op) : Op := a.foldl (fun acc (t, c) => Dict.set acc (sortF t.reverse) c.conj) []
+
+/-- `[(index, 1 - action) for (index, action) in reversed(term)]` -/
+def conjTermF (t : Term) : Term := t.reverse.map fun f => (f.1, 1 - f.2)
+
+/-- `hermitian_conjugated(FermionOperator)` -/
+def hcFermion (a : Op) : Op := a.foldl (fun acc (t, c) => Dict.set acc (conjTermF t) c.conj) []
+
+/-- `hermitian_conjugated(BosonOperator)`: conjugate term sorted by index (stable) -/
+def hcBoson (a : Op) : Op := a.foldl (fun acc (t, c) => Dict.set acc (sortF (conjTermF t)) c.conj) []
+
+/-- `is_hermitian(FermionOperator)`: `normal_ordered(op) == normal_ordered(hermitian_conjugated(op))` -/
+def isHermitianFermion (tol : Rat) (a : Op) : Bool :=
+  isclose tol (C03.normalOrdered tol .fermion a) (C03.normalOrdered tol .fermion (hcFermion a))
+
+def isHermitianBoson (tol : Rat) (a : Op) : Bool :=
+  isclose tol (C03.normalOrdered tol .boson a) (C03.normalOrdered tol .boson (hcBoson a))
 
 def isHermitianQubit (tol : Rat) (a : Op) : Bool := isclose tol a (hcQubit a)
 def isHermitianQuad (tol : Rat) (a : Op) : Bool := isclose tol a (hcQuad a)
